@@ -94,8 +94,7 @@ Fixpoint oracle_from (left right : list obs) (got : list Z) : nat :=
   | [] => 2
   | g :: got' =>
       let want := spec_code (lb_decision left right) (gb_boundary left right) (wb_boundary left right) in
-      let here := if g =? want then 0%nat
-                  else if f3_position left right && (g =? want + 1) then 1%nat else 2%nat in
+      let here := if g =? want then 0%nat else 2%nat in
       match right with
       | [] => match got' with [] => here | _ => 2%nat end
       | o :: r => Nat.max here (oracle_from (o :: left) r got')
